@@ -527,6 +527,8 @@ func opName(code byte) string {
 		return "ConvertSampleToByteStream"
 	case 'N':
 		return "ConvertByteStreamToNaluSample"
+	case 'A':
+		return "AddCompatibleBrands/AddSampleData"
 	}
 	return "?"
 }
@@ -759,6 +761,30 @@ func execOp(p op, objs map[int]*object, w *world, cryptKey []byte) (res opResult
 			}
 		}
 		return opResult{class: "ok"}
+	case 'A':
+		// growing byte fields that may be views of the input: ftyp / styp brands, mdat data
+		o := get(p.o)
+		if o == nil || o.file == nil {
+			return opResult{class: "skip"}
+		}
+		n := 0
+		if o.file.Ftyp != nil {
+			o.file.Ftyp.AddCompatibleBrands([]string{"c20a"})
+			n++
+		}
+		for _, s := range o.file.Segments {
+			if s.Styp != nil {
+				s.Styp.AddCompatibleBrands([]string{"c20b", "c20c"})
+				n++
+			}
+			for _, fr := range s.Fragments {
+				if fr.Mdat != nil && len(fr.Mdat.DataParts) == 0 {
+					fr.Mdat.AddSampleData([]byte{0xc2, 0, 0xc2, 0, 0xc2, 0, 0xc2, 0, 0xc2})
+					n++
+				}
+			}
+		}
+		return opResult{class: "ok", digest: fmt.Sprintf("grown=%d,size=%d", n, o.file.Size())}
 	case 'B':
 		o := get(p.o)
 		if o == nil || !o.isSamp {
